@@ -15,6 +15,7 @@ Local Open Scope Z_scope.
 Section Trace.
 Variables K V : Type.
 Variable kcmp : K -> K -> Z.
+Variable limit : Z -> Z -> Z.          (* the tree's depth limit; the replay instances use HeightModel.limit_capped *)
 Variable zk : K.
 Variable zv : V.
 
@@ -24,14 +25,12 @@ Inductive top : Type :=
 | TNext (r : nat) | TPrev (r : nat) | TSweepNext (r : nat) | TSweepPrev (r : nat).
 
 Inductive titem : Type :=
-| OBool (b : bool) | OUnit | OGet (get : V) (v : V) (ok : bool) | OLen (n : Z)
-| OKeys (ks : option (list K)) | OString (es : list (K * V))
-| ORegs (rs : list (option (bool * K * V))) | OSweep (es : list (K * V)) (still_valid : bool)
-| OStale | OPanic | OFail.
+| XBool (b : bool) | XUnit | XGet (get : V) (v : V) (ok : bool) | XLen (n : Z)
+| XKeys (ks : option (list K)) | XString (es : list (K * V))
+| XRegs (rs : list (option (bool * K * V))) | XSweep (es : list (K * V)) (still_valid : bool)
+| XStale | XPanic | XFail.
 
 Notation omap := (OmapModel.omap K V).
-Definition limit := HeightModel.limit_capped.
-
 Record mstate : Type := mkM { mm : omap; regs : list (option cursor); fresh : list bool; used : nat }.
 
 Fixpoint set_nth {A : Type} (r : nat) (a : A) (l : list A) : list A :=
@@ -55,9 +54,11 @@ Fixpoint obs_all (m : omap) (cs : list (option cursor)) (fs : list bool) : res (
   end.
 
 Definition state (s : mstate) : res titem :=
-  bind (obs_all (mm s) (firstn (used s) (regs s)) (firstn (used s) (fresh s))) (fun os => Ok (ORegs os)).
+  bind (obs_all (mm s) (firstn (used s) (regs s)) (firstn (used s) (fresh s))) (fun os => Ok (XRegs os)).
 
 Definition no_fresh : list bool := [false; false; false; false].
+(* after an edit every register is stale *)
+Definition all_stale (fs : list bool) : list bool := map (fun _ => false) fs.
 
 (* for step := 0; it.IsValid() && step < Len+2; step++ { es = append(es, (Key, Value)); it.Next()/Prev() } *)
 Fixpoint sweep (m : omap) (fwd : bool) (fuel : nat) (c : cursor) (acc : list (K * V)) : res (cursor * list (K * V)) :=
@@ -82,24 +83,24 @@ Definition do_op (s : mstate) (o : top) : res (option mstate * titem) :=
   match o with
   | TSet k v =>
     match mset K V kcmp limit m k v with
-    | Ok (m', b) => Ok (Some (mkM m' (regs s) no_fresh (used s)), OBool b)
-    | Panic => Ok (None, OPanic)
+    | Ok (m', b) => Ok (Some (mkM m' (regs s) (all_stale (fresh s)) (used s)), XBool b)
+    | Panic => Ok (None, XPanic)
     | OutOfFuel => OutOfFuel
     | BadOracle => BadOracle
     end
   | TDelete k =>
-    bind (mdelete K V kcmp zv m k) (fun '(m', b) => Ok (Some (mkM m' (regs s) no_fresh (used s)), OBool b))
-  | TClear => Ok (Some (mkM (mclear K V m) (regs s) no_fresh (used s)), OUnit)
-  | TGet k => let '(v, ok) := mget_ok K V kcmp zv m k in Ok (Some s, OGet (mget K V kcmp zv m k) v ok)
-  | TLen => Ok (Some s, OLen (mlen K V m))
-  | TKeys => bind (mkeys K V m) (fun ks => Ok (Some s, OKeys ks))
-  | TString => bind (mto_string K V zk zv m) (fun es => Ok (Some s, OString (match es with Some l => l | None => [] end)))
+    bind (mdelete K V kcmp zv m k) (fun '(m', b) => Ok (Some (mkM m' (regs s) (all_stale (fresh s)) (used s)), XBool b))
+  | TClear => Ok (Some (mkM (mclear K V m) (regs s) (all_stale (fresh s)) (used s)), XUnit)
+  | TGet k => let '(v, ok) := mget_ok K V kcmp zv m k in Ok (Some s, XGet (mget K V kcmp zv m k) v ok)
+  | TLen => Ok (Some s, XLen (mlen K V m))
+  | TKeys => bind (mkeys K V m) (fun ks => Ok (Some s, XKeys ks))
+  | TString => bind (mto_string K V zk zv m) (fun es => Ok (Some s, XString (match es with Some l => l | None => [] end)))
   | TFirst r => bind (mfirst K V m) (fun c => bind (place s r true c) (fun '(s', it) => Ok (Some s', it)))
   | TLast r => bind (mlast K V m) (fun c => bind (place s r true c) (fun '(s', it) => Ok (Some s', it)))
   | TSeek r k => bind (mseek K V kcmp zv m k) (fun c => bind (place s r true c) (fun '(s', it) => Ok (Some s', it)))
   | TReseek r k =>
     match nth r (regs s) None with
-    | None => Ok (Some s, OStale)
+    | None => Ok (Some s, XStale)
     | Some _ => bind (iseek K V kcmp zv m k) (fun c => bind (place s r false c) (fun '(s', it) => Ok (Some s', it)))
     end
   | TNext r | TPrev r =>
@@ -108,14 +109,14 @@ Definition do_op (s : mstate) (o : top) : res (option mstate * titem) :=
       bind (match o with TNext _ => inext K V m cu | _ => iprev K V m cu end) (fun c =>
       let s' := mkM m (set_nth r (Some c) (regs s)) (fresh s) (used s) in
       bind (state s') (fun it => Ok (Some s', it)))
-    | _, _ => Ok (Some s, OStale)
+    | _, _ => Ok (Some s, XStale)
     end
   | TSweepNext r | TSweepPrev r =>
     match nth r (regs s) None, nth r (fresh s) false with
     | Some cu, true =>
       bind (sweep m (match o with TSweepNext _ => true | _ => false end) (Z.to_nat (mlen K V m) + 2) cu []) (fun '(c, es) =>
-      Ok (Some (mkM m (set_nth r (Some c) (regs s)) (fresh s) (used s)), OSweep es (ivalid c)))
-    | _, _ => Ok (Some s, OStale)
+      Ok (Some (mkM m (set_nth r (Some c) (regs s)) (fresh s) (used s)), XSweep es (ivalid c)))
+    | _, _ => Ok (Some s, XStale)
     end
   end.
 
@@ -126,14 +127,14 @@ Fixpoint run_ops (s : mstate) (ops : list top) : list titem :=
     match do_op s o with
     | Ok (Some s', it) => it :: run_ops s' rest
     | Ok (None, it) => [it]
-    | _ => [OFail]
+    | _ => [XFail]
     end
   end.
 
 Definition run_trace (zero : bool) (ops : list top) : list titem :=
   match (if zero then Ok (zero_map K V) else new_func K V kcmp) with
   | Ok m => run_ops (mkM m [None; None; None; None] no_fresh O) ops
-  | _ => [OFail]
+  | _ => [XFail]
   end.
 
 End Trace.
@@ -153,23 +154,23 @@ Arguments TNext {K V} r.
 Arguments TPrev {K V} r.
 Arguments TSweepNext {K V} r.
 Arguments TSweepPrev {K V} r.
-Arguments OBool {K V} b.
-Arguments OUnit {K V}.
-Arguments OGet {K V} get v ok.
-Arguments OLen {K V} n.
-Arguments OKeys {K V} ks.
-Arguments OString {K V} es.
-Arguments ORegs {K V} rs.
-Arguments OSweep {K V} es still_valid.
-Arguments OStale {K V}.
-Arguments OPanic {K V}.
-Arguments OFail {K V}.
+Arguments XBool {K V} b.
+Arguments XUnit {K V}.
+Arguments XGet {K V} get v ok.
+Arguments XLen {K V} n.
+Arguments XKeys {K V} ks.
+Arguments XString {K V} es.
+Arguments XRegs {K V} rs.
+Arguments XSweep {K V} es still_valid.
+Arguments XStale {K V}.
+Arguments XPanic {K V}.
+Arguments XFail {K V}.
 
 (* ------------------------------------------------------------------ the two instances *)
 
 Definition icmp_of := CursorTrace.cmp_of.
 Definition run_trace_int (cmp : Z -> Z -> Z) (zero : bool) (ops : list (top Z Z)) : list (titem Z Z) :=
-  run_trace Z Z cmp 0 0 zero ops.
+  run_trace Z Z cmp HeightModel.limit_capped 0 0 zero ops.
 
 (* strings are byte lists; Go compares strings byte-wise *)
 Definition bytes : Type := list Z.
@@ -199,4 +200,4 @@ Definition scmp_of (c : scmpcode) (a b : bytes) : Z :=
   end.
 
 Definition run_trace_str (cmp : bytes -> bytes -> Z) (zero : bool) (ops : list (top bytes bytes)) : list (titem bytes bytes) :=
-  run_trace bytes bytes cmp [] [] zero ops.
+  run_trace bytes bytes cmp HeightModel.limit_capped [] [] zero ops.
